@@ -64,5 +64,15 @@ def install_yaml_externals(E):
             raise PyRaise(ExcValue("ValueError", ("day is out of range for month",)))
         return SObj("date", {}, ghost={"str": I.fresh("datestr", "str")})
     E.externals["datetime.date"] = x_date
+
+    def x_fromisoformat(I, args, kwargs):      # datetime.fromisoformat(str): a datetime, or ValueError for text that is no ISO date-time
+        v = I.force(args[0])
+        if ops.kind_of(v) != "str":
+            raise PyRaise(ExcValue("TypeError", ("fromisoformat: argument must be str",)))
+        ok = I.fresh("datetime.valid", "bool")
+        if not I.ctx.branch(ok.t):
+            raise PyRaise(ExcValue("ValueError", ("Invalid isoformat string",)))
+        return SObj("date", {}, ghost={"str": I.fresh("datetimestr", "str"), "datetime": True})
+    E.externals["datetime.datetime.fromisoformat"] = x_fromisoformat
     E.external_isinstance["datetime.date"] = lambda I, v: isinstance(v, SObj) and v.cls == "date"
     E.external_isinstance["datetime.datetime"] = lambda I, v: False
